@@ -128,8 +128,20 @@ pub fn parse_pretty(out: &str) -> Result<(Vec<PrettyItem>, Option<usize>), Strin
             let (num, text) = code.trim_start().split_once(" | ").or_else(|| code.trim_start().split_once(" |")).ok_or_else(|| format!("bad code line: {code}"))?;
             let n: usize = num.trim().parse().map_err(|_| format!("bad line number: {code}"))?;
             let (_, marks) = caret.split_once(" | ").or_else(|| caret.split_once(" |")).ok_or_else(|| format!("bad caret line: {caret}"))?;
-            let off = marks.chars().take_while(|c| *c != '^').count();
+            // the marker is measured in absolute screen columns: the excerpt starts behind
+            // the bar of its own line, the marker must stand under it on the next line
+            let bar_col = |x: &str| x.chars().position(|c| c == '|');
+            let (b0, b1, b2) = (bar_col(lines[i]), bar_col(code), bar_col(caret));
+            if b0 != b1 || b1 != b2 {
+                return Err(format!("the bars of a source excerpt are not in one column: {:?} / {:?} / {:?}", lines[i], code, caret));
+            }
+            let text_col = b1.unwrap_or(0) + 2;
             let len = marks.chars().filter(|c| *c == '^').count();
+            let off = match caret.chars().position(|c| c == '^') {
+                Some(c) if c >= text_col => c - text_col,
+                Some(_) => return Err(format!("marker left of the excerpt: {caret:?}")),
+                None => marks.chars().count(),
+            };
             excerpt = Some((n, text.to_string(), off, len));
             i += 3;
         }
